@@ -154,7 +154,11 @@ def run(tier, replay=None):
         for kind, cn, what, log in r["fails"]:
             first = [l for l in log.splitlines() if "error" in l][:2]
             axis = r["desc"].split("=")[0] if r["fam"] in ("attr", "num") else r["fam"]
-            rep.violation("%s:%s:%s" % (kind, r["fam"], axis if r["fam"] in ("attr", "num") else ""),
+            sig = "%s:%s:%s" % (kind, r["fam"], axis if r["fam"] in ("attr", "num") else "")
+            if r["desc"].startswith("impl-name:"):
+                # a schema name that collides with an identifier of the emitted code: identified by the name
+                sig = "impl-identifier-clash:" + r["desc"][len("impl-name:"):].split("@")[0]
+            rep.violation(sig,
                           {"family": r["fam"], "schema_desc": r["desc"], "cell": cn, "file": what,
                            "msg": "%s [%s] %s on %s: %s" % (r["desc"], kind, what, cn, " | ".join(first) or log[-300:])})
         if len(rep.cov["samples"]) < 5 and r["fam"] in ("names", "attr"):
